@@ -119,7 +119,9 @@ contract("user:hook", trusted=True, pos_params=["context"], vararg="args", globa
                         ensures={"logged": "G_nhooks == old(G_nhooks) + 1 and G_bad == old(G_bad) + 1"})],
          ensures={"logged": "G_nhooks == old(G_nhooks) + 1 and G_bad == old(G_bad)"},
          doc="a user hook function: raises an Exception subclass iff hook_raises(k) (A-hook)")
-trusted_note("user:hook", "A-hook: hooks raise only Exception subclasses and touch the model only through documented API")
+trusted_note("user:hook", "A-hook: hooks raise only Exception subclasses and touch the model only through documented API; a hook "
+             "raising KeyboardInterrupt is outside the contracts -- its effect on capture is the bounded check "
+             "real-runs-hook-interrupt (KF-C18-3)")
 
 contract(R + "ModelRunner.run_hook", props=["C12", "C01"],
          params={"self": "ref:ModelRunner", "name": "str", "context": "ref:Context", "args": "tuple:any"},
